@@ -519,6 +519,9 @@ void uop(string *a) {
       rec("UNEWDONE - ok=" + (find_object(a[1]) ? 1 : 0) + " err=" + (e ? replace_string(e, "\n", "") : "0"));
     }
     break;
+  case "uvo":     // uvo <name>: from now on the master serves <name> as a virtual object (a fresh /uobj clone)
+    master()->set_vo(a[1], "uclone");
+    break;
   case "ucf":     // ucf <file> <answer>: change the master's creator_file policy
     master()->set_cf(a[1], a[2]);
     break;
@@ -785,7 +788,7 @@ void do_op(string op) {
   case "xco": case "xaco": case "xsco": case "xsaco": case "xreload": case "comp": case "coinfo": case "reload":
     xop(a);
     break;
-  case "uclone": case "uload": case "useteuid": case "uexport": case "uids": case "ucall": case "ucf": case "uvs": case "umclone":
+  case "uclone": case "uload": case "useteuid": case "uexport": case "uids": case "ucall": case "ucf": case "uvs": case "umclone": case "uvo":
     uop(a);
     break;
   case "setcs":   // setcs <script>: the next vobj created runs this script inside create()
